@@ -16,10 +16,11 @@
     q_xx           : regular → `q0_xx`; singular → `solve_x` (may throw), `Σ a_k/d_k·b_k`;
     q_bb           : `ã_i · solve(ã_jᵀ)` (both C++ branches);
     q_bx           : throws `Exception::BadRegularization` ("q_bx not implemented");
-    lindep(i)      : `envelope.diagonal(i) == 0` — the C++ indexes the factor (which lives in
-                     the new numbering) with the ORIGINAL index `i`; `lindepAsCoded` models
-                     that, `lindepFixed` the repaired `diagonal(ordering.invp(i))`
-                     (notes/proposed/C20-envelope-lindep-ordering.diff).
+    lindep(i)      : `envelope.diagonal(ordering.invp(i)) == 0` (`lindepFixed`; repo commit
+                     fcb9aa0).  Before that fix the C++ indexed the factor (which lives in the
+                     new numbering) with the ORIGINAL index `i`; `lindepAsCoded` keeps that
+                     behaviour for the recorded witness (Props/C20/Env.lean,
+                     corpus/C20/env-lindep-ordering.ops).
 
   The ordering is an input (`EnvOrd`): theorems hold for every permutation; the executable
   model computes the same reverse Cuthill–McKee ordering as the code (`Gama/Model/RCM.lean`,
@@ -144,15 +145,16 @@ def envAnswerOrd (p : Problem K) (ord : Array (List Nat) → EnvOrd) : Except Er
 /-- `AdjEnvelope` as coded: reverse Cuthill–McKee ordering of the homogenised pattern -/
 def envAnswer (p : Problem K) : Except ErrKind (EnvAnswer K) := envAnswerOrd p (rcmOrd p.n)
 
-/-- answers of a fresh solver object of this algorithm on problem `p` (shared vocabulary).
-    `unknowns()` throwing `BadRegularization` makes the whole shared answer an error. -/
+/-- answers of a fresh solver object of this algorithm on problem `p` (shared vocabulary);
+    `lindep` is the repaired `diagonal(ordering.invp(i))` (repo commit fcb9aa0) -/
 def envSolve : Solver K := fun p =>
   match envAnswer p with
   | .error e => .error e
   | .ok a =>
-    match a.x with
-    | .error e => .error e
-    | .ok x => .ok { x := x, r := a.r, rtr := a.rtr, defect := a.defect, qxx := a.qxx, q0xx := a.q0xx
-                     qbb := a.qbb, qbx := a.qbx, lindep := a.lindepAsCoded }
+    let xs : Array K × Option ErrKind := match a.x with
+      | .error e => (#[], some e)
+      | .ok x => (x, none)
+    .ok { x := xs.1, xErr := xs.2, r := a.r, rtr := a.rtr, defect := a.defect, qxx := a.qxx, q0xx := a.q0xx
+          qbb := a.qbb, qbx := a.qbx, lindep := a.lindepFixed }
 
 end Gama.Ls
